@@ -957,7 +957,16 @@ def count(tier, seed):
 def make_case(tier, seed, index):
     if index < N_VALID[tier]:
         rng = gen.rng_for(seed, 18, index)
-        return {"kind": "valid", "spec": gen.gen_spec(rng, {"p_targetable": 0.4, "steps": (2, 6)})}
+        pf_valid = {"p_targetable": 0.4, "steps": (2, 6)}
+        if index % 8 == 3:
+            # a minimal but valid layout: one compartment per population, transfers between populations, no transitions at all
+            # (so no parameter has units and the Format column is entirely blank)
+            pf_valid.update({"n_ord": (1, 1), "n_junctions": (0, 0), "p_timed": 0.0, "n_pops": (2, 3), "p_transfer": 1.0, "p_source": 0.0, "n_sinks": (0, 0), "n_aux": (1, 3)})
+        spec_valid = gen.gen_spec(rng, pf_valid)
+        if index % 16 == 3 and not spec_valid["trans"]:
+            for p_ in spec_valid["pars"]:
+                p_["format"] = None  # (units are optional for parameters that drive no transition)
+        return {"kind": "valid", "spec": spec_valid}
     rng = gen.rng_for(seed, 18, 100000 + index)
     j = index - N_VALID[tier]
     total = len(FW_MUTATIONS) + len(DB_MUTATIONS) + len(PB_MUTATIONS)
